@@ -33,6 +33,11 @@ CLAIMED = {
             'Seeded search over (s, p or lr-scheduled p_t, S) schedules and op histories (STEP, CLOCK_JUMP up to 2^20, stale-checkpoint CRASH_RESTORE, REJIT) for Distributed Shampoo (jit, simulated replicas, quantized, sharded) and Tearfree Shampoo/Sketchy. Per tick: every counter +1, statistics/preconditioner/diagnostic leaves byte-identical off schedule, refreshed statistics equal the one-step float64 reference, accepted roots satisfy the root oracle against the statistics stored at that tick, and the update comes from the branch (graft momentum vs preconditioned) the clock selects.',
             'The automaton is written from the docstrings; lr-scheduled intervals are evaluated in float64 with dont-care ticks at rounding boundaries; bounded sizes and horizons.',
             'DESIGN.md 4 C04'),
+    'C09': ('exploration',
+            'deterministic simulation: sketch state after every update vs the exact float64 discounted covariance kept by the oracle, over seeded histories with zero / low-rank / scale-jump ticks, restores and clock jumps',
+            'Three systems run real code: Tearfree Sketchy (per-axis state), the Distributed Shampoo frequent-directions root (decoded from the packed preconditioner slot with the repo\'s own unpack) and the OCO sketches. After every sketch update: columns orthonormal-or-zero, l>=0, t>=0, V diag(l) V\' <= C <= V diag(l) V\' + t I, t_new = b t_old + r with r recomputed from the stored previous sketch, zero-gradient ticks discount sketch and escaped mass by b, rank<=k histories give t=0, stored inverse roots equal (l+t+eps)^(-1/p).',
+            'float32 tolerances 1e-4..2e-4 relative to ||C|| (probed headroom >= 15x); the DS FD path is driven with finite gradients only (its LAPACK svd hangs on non-finite input); one known finding (padded DS FD statistics) is listed in known_findings.json.',
+            'DESIGN.md 4 C09, appendix C'),
     'C13': ('exploration',
             'deterministic simulation: D in-process replicas (vmap named axis; real pmap cross-check) vs a one-replica twin, RESCALE and CRASH_RESTORE mid-run',
             'Seeded search over trees (N statistics, all residues N mod D), D in 2..13 simulated replicas (and real pmap on forced host devices for D<=8), full / int16-quantized / low-rank compressed preconditioners, and sharded mode with different declared device counts. After every tick all replicas are byte-identical and agree with the one-replica twin (statistics, momenta, gate decisions, preconditioners to a conditioning-aware rounding tolerance, updates).',
@@ -43,6 +48,16 @@ CLAIMED = {
             'For every sampled (optimizer family and mode, config, tree, history of T ticks) every crash point k in 0..T is executed: to_bytes at k, drop optimizer object, jit cache and live state, construct a fresh optimizer, from_bytes into its init template, continue to T; every later update and state leaf must be byte-identical to the uninterrupted twin. Families: DS full/quantized(replicas)/compressed/FD/sharded/eager, SM3, Tearfree Shampoo/Sketchy. Exhaustive over crash points per history; histories are sampled.',
             'Checkpoint = flax msgpack of the state pytree; parameters and the gradient stream are checkpointed by the stub trainer; restored leaves are placed on device before an eager update.',
             'DESIGN.md 4 C14'),
+    'C15': ('exploration',
+            'deterministic simulation: one-step refinement of the Tearfree chain against a float64 model, plus lr-scaling and shape twins, over seeded configs and histories with clock jumps/restores/faults',
+            'Seeded search over all option combinations of the Tearfree optimizer; every tick is compared leaf by leaf (block covariances, exact per-block inverse roots with the per-block 1e-6 cut-off, graft accumulator, momentum trace, update) with a float64 model fed the implementation\'s previous state; twin runs check that the update is exactly linear in the learning rate (bitwise for powers of two) and that pre-merged / pre-padded tensors receive the same values for real entries.',
+            'Shampoo under x64 with float64 parameters, Sketchy in float32 (its sketch is checked by C09); root comparisons are vacuous when an eigenvalue lies within 4x of the cut-off; Adafactor grafting not exercised.',
+            'DESIGN.md 4 C15, appendix B'),
+    'C16': ('exploration',
+            'deterministic simulation: stepwise init/update pairs vs closed forms, exact full-matrix AdaGrad and exact covariance; compiled scan/fori_loop runner as a twin',
+            'Seeded search over algorithm x dimension x sketch size x delta x lr x gradient sequence kind; OGD and diagonal AdaGrad iterates equal their closed forms to 1e-12, every sketched method keeps its last sketch row zero and its sketch within the FD bracket, alpha equals delta plus the accumulated escaped mass, S-AdaGrad equals exact full-matrix AdaGrad whenever the history rank is below the sketch size and delta>0, and the compiled runner\'s history at the observation indices equals the stepwise states.',
+            'x64 on; the lossless comparison is vacuous when cond(delta I + C) makes float64 meaningless (>4e9).',
+            'DESIGN.md 4 C16'),
 }
 
 NOT_YET = {}
